@@ -89,12 +89,16 @@ func c11R1(r *Report) {
 		return
 	}
 	// loop head: the guard `!isCongested && Queue() > 0`: start exploration from the call to Requested() that precedes the dequeue
-	var start ssa.Instruction = dq
-	allInstrs(mr, func(in ssa.Instruction) {
-		if c, ok := in.(*ssa.Call); ok && isCallNamed(c, "peer/requests", "Requested") && instrDominates(c, dq) {
-			start = c
+	// exploration starts at the head of the loop that contains the dequeue: everything tested in the same
+	// iteration counts, whether before or after the dequeue
+	var loopHead *ssa.BasicBlock
+	for h := dq.Block(); h != nil && loopHead == nil; h = h.Idom() {
+		for _, pb := range h.Preds {
+			if h.Dominates(pb) {
+				loopHead = h
+			}
 		}
-	})
+	}
 	for _, w := range ws {
 		sl := litOf(w.Call.Args[1])
 		okT, x := tripleOK(sl)
@@ -138,23 +142,36 @@ func c11R1(r *Report) {
 				}
 				return (bo.Op == token.EQL && !pol) || (bo.Op == token.NEQ && pol)
 			}},
-			{Name: "outstanding < 2 or outstanding < peer.reqQ", Match: func(cond ssa.Value, pol bool) bool {
-				bo, ok := cond.(*ssa.BinOp)
-				if !ok || bo.Op != token.GEQ || pol {
+			{Name: "outstanding < 2 or outstanding < peer.reqQ", ViaHelper: true, Match: func(cond ssa.Value, pol bool) bool {
+				op, x, y, ok := cmpFact(Guard{Cond: cond, Pol: pol})
+				if !ok {
 					return false
 				}
-				c, ok := bo.X.(*ssa.Call)
-				if !ok || !isCallNamed(c, "peer/requests", "Requested") {
+				// normalise to  Requested() < bound
+				switch op {
+				case token.GTR:
+					x, y, op = y, x, token.LSS
+				case token.GEQ:
+					x, y, op = y, x, token.LEQ
+				}
+				c, okc := x.(*ssa.Call)
+				if !okc || !isCallNamed(c, "peer/requests", "Requested") {
 					return false
 				}
-				if k, okk := constInt(bo.Y); okk && k <= 2 {
+				if k, okk := constInt(y); okk && ((op == token.LSS && k <= 2) || (op == token.LEQ && k <= 1)) {
 					return true
 				}
-				fv, _ := loadedField(bo.Y)
-				return fv == rqF
+				fv, _ := loadedField(y)
+				return fv == rqF && op == token.LSS
 			}},
 		}
-		missing, reached := pathsMissing(start, -1, target, nil, reqs)
+		var missing []string
+		reached := 0
+		if loopHead != nil {
+			missing, reached = pathsMissingAt(loopHead, 0, -1, target, nil, reqs, nil)
+		} else {
+			missing, reached = pathsMissing(dq, -1, target, nil, reqs)
+		}
 		if reached == 0 {
 			r.Undecided("R1", "maybeRequest/send-time-recheck", w.Pos(), "the Request write is not reachable from the dequeue")
 			continue
